@@ -266,8 +266,8 @@ def programs(tier, seed, want_extra=True):
     progs = d1 + rnd.sample(d2, 60) + gen.random_programs(35, seed + 11, E2_FEATURES)
   else:
     sk3 = [p for p in gen.skeletons(3) if p.name.count('>') == 2]
-    progs = sk + rnd.sample(sk3, 700) + gen.random_programs(500, seed + 11, E2_FEATURES)
-    progs += gen.random_programs(150, seed + 12, E2_FEATURES, max_depth=4, max_stmts=7)
+    progs = sk + rnd.sample(sk3, 150) + gen.random_programs(200, seed + 11, E2_FEATURES)
+    progs += gen.random_programs(60, seed + 12, E2_FEATURES, max_depth=4, max_stmts=7)
   if want_extra:
     progs += [gen.Prog(n, s, {'extra'}) for n, s in EXTRA]
   return progs
